@@ -168,7 +168,38 @@ def run(chk):
                 ops.append((k, rng.randrange(nk)))
         jobs.append((keys, ops, ("history",) + tuple(o[0] for o in ops[:6])))
     cases = [Case("h%d" % i, build(keys, ops), {"globals": "__o,__e", "steps": 200000}) for i, (keys, ops, _) in enumerate(jobs)]
+    # values that compare equal but can be told apart (1 and 1.0, two arrays with the same contents): a lookup returns the
+    # value most recently stored, not an earlier equal one
+    EQV = [
+        ("let m = map {}; push(__o, insert(m, 7, 1)); push(__o, insert(m, 7, 1.0)); push(__o, get(m, 7)); push(__o, insert(m, 7.0, 1)); push(__o, m[7]); m[7] = 1.0; push(__o, get(m, 7.0)); push(__o, len(m));",
+         [("null",), ("i", 1), ("f", 1.0), ("f", 1.0), ("i", 1), ("f", 1.0), ("i", 1)]),
+        ("let a = [1, 2]; let b = [1, 2]; let m = map {\"k\": a}; m[\"k\"] = b; push(b, 3); push(__o, len(m[\"k\"])); insert(m, \"k\", a); push(a, 9); push(a, 9); push(__o, len(get(m, \"k\")));",
+         [("i", 3), ("i", 4)]),
+        ("let m = map {1: 2, 1.0: 2.0}; push(__o, get(m, 1)); push(__o, len(m)); let n = map {2.0: 5.0, 2: 5}; push(__o, n[2.0]); push(__o, len(n));",
+         [("f", 2.0), ("i", 1), ("i", 5), ("i", 1)]),
+        ("let m = map {}; let i = 0; while i < 6 { if i % 2 == 0 { m[\"x\"] = 3; } else { m[\"x\"] = 3.0; } push(__o, m[\"x\"]); i = i + 1; }",
+         [("i", 3), ("f", 3.0), ("i", 3), ("f", 3.0), ("i", 3), ("f", 3.0)]),
+        ("let m = map {[1]: 0.0}; m[[1.0]] = 0; push(__o, m[[1]]); insert(m, [1], -0.0); push(__o, get(m, [1.0])); push(__o, len(m));",
+         [("i", 0), ("f", -0.0), ("i", 1)]),
+        ("let inner1 = map {1: 1}; let inner2 = map {1: 1}; let m = map {0: inner1}; m[0] = inner2; insert(inner2, 2, 2); push(__o, len(m[0])); push(__o, len(inner1));",
+         [("i", 2), ("i", 1)]),
+    ]
+    for k, (prog, exp) in enumerate(EQV):
+        cases.append(Case("q%d" % k, "let __o = []; " + prog, {"globals": "__o", "steps": 100000}))
     res = core.run_cases(cases)
+    for k, (prog, exp) in enumerate(EQV):
+        r = res.get("q%d" % k)
+        if r is None:
+            chk.inconc("missing result")
+            continue
+        chk.observed(("equal-values", k))
+        got = list(canon_dump(r["globals"]["__o"])[1]) if r.get("outcome") == "ok" and "globals" in r else None
+
+        from .val import canon
+        exp = [canon(None if x[0] == "null" else x[1]) for x in exp]
+        if got is None or got != exp:
+            chk.violation("lookup|equal-but-distinct-values|%d" % k, "%s: expected %s, observed %s (%s)" % (
+                prog, [show(x) for x in exp], [show(x) for x in got] if got is not None else None, r.get("rt") or r.get("outcome")), {"src": prog})
     for i, (keys, ops, tag) in enumerate(jobs):
         r = res.get("h%d" % i)
         if r is None:
